@@ -437,6 +437,18 @@ theorem iterate_inv (hself : (s1.prov.lookup j).isSome = true) :
 
 end conv
 
+theorem isHead_stIter (s1 : St) (j new : Nat) (hself : (s1.prov.lookup j).isSome = true) :
+    isHead (stIter s1 j new).prov j = true := by
+  cases hl : s1.prov.lookup j with
+  | none => rw [hl] at hself; cases hself
+  | some last =>
+    have : (j, new) ∈ updateProv (cache1Of s1 j new) s1.prov := by
+      unfold updateProv
+      rw [List.mem_filterMap]
+      refine ⟨(j, last), lookup_mem hl, ?_⟩
+      simp [cache1Of, lookup_cons_self]
+    exact lookup_isSome_of_mem this
+
 theorem not_headOn_of_not_below {s0 s1 : St} {j : Nat} (hE : Ext s0 s1)
     (hst : s1.stack = j :: s0.stack) (hb : ¬ s1.stack.tail.any (isHead s1.prov) = true) :
     ¬ HeadOn s0 := by
@@ -456,15 +468,16 @@ theorem ext_of_empty {s0 s' : St} (hp : s'.poisoned = s0.poisoned)
 theorem loop_spec (hNF : NoFallback P) {read : Nat → St → Res Fetched}
     (hR : ReadSpec P env read) (j : Nat) (s0 : St)
     (hs0 : ¬ HeadOn s0 → s0.cache = [] ∧ s0.prov = []) :
-    ∀ (fuel stamp : Nat) (s : St) (v : Nat) (hs : List Nat) (s' : St),
+    ∀ (fuel stamp : Nat) (outer : Bool) (s : St) (v : Nat) (hs : List Nat) (s' : St),
       Inv P env s → s.stack = j :: s0.stack → Ext s0 s →
-      executeMaybeIterate P env read j fuel stamp s = .ok (v, hs, s') →
+      (outer = true → ¬ HeadOn s0 ∧ isHead s.prov j = true) →
+      executeMaybeIterate P env read j outer fuel stamp s = .ok (v, hs, s') →
       Inv P env s' ∧ s'.stack = s0.stack ∧ Ext s0 s' ∧ Avail s' j v := by
   intro fuel
   induction fuel with
-  | zero => intro stamp s v hs s' _ _ _ h; simp [executeMaybeIterate] at h
+  | zero => intro stamp outer s v hs s' _ _ _ _ h; simp [executeMaybeIterate] at h
   | succ fuel ih =>
-    intro stamp s v hs s' hI hst hE0 h
+    intro stamp outer s v hs s' hI hst hE0 houter h
     unfold executeMaybeIterate at h
     cases hev : evalM env read (P.node j).body s with
     | error e => rw [hev] at h; cases h
@@ -479,6 +492,10 @@ theorem loop_spec (hNF : NoFallback P) {read : Nat → St → Res Fetched}
       have hv1 : le v1 (lfp P env j) := by
         rw [← lfp_step]
         exact EvalRel.upper (fun c w hw => hI1.avail_le P env hw) hrel
+      have hbT : ∀ {b : Bool}, (!outer && b) = true → b = true := by
+        intro b hb; cases outer <;> simp_all
+      have hbF : ∀ {b : Bool}, ¬ (!outer && b) = true → outer = true ∨ b = false := by
+        intro b hb; cases outer <;> cases b <;> simp_all
       cases hl : s1.prov.lookup j with
       | none =>
         rw [hl] at h
@@ -494,13 +511,17 @@ theorem loop_spec (hNF : NoFallback P) {read : Nat → St → Res Fetched}
           injection h with h; injection h with e1 h; injection h with e2 e3
           subst e1; subst e3
           obtain ⟨hI', hE', hA'⟩ := complete_cached P env s1 j s0.stack v1 v1
-            (hs1.filter (fun k => k != j)) hI1 hst1' hb hrel (le_refl _) hv1
+            (hs1.filter (fun k => k != j)) hI1 hst1' (hbT hb) hrel (le_refl _) hv1
           exact ⟨hI', htail, hE01.trans hE', hA'⟩
         · rename_i hb
           injection h with h; injection h with e1 h; injection h with e2 e3
           subst e1; subst e3
-          obtain ⟨hI', hE', hA'⟩ := complete_final P env s1 j s0.stack v1 hI1 hst1'
-            (by simpa using hb) hl hrel
+          have hX : s1.stack.tail.any (isHead s1.prov) = false := by
+            rcases hbF hb with ho | hx
+            · have := isHead_mono hE1 (houter ho).2
+              simp [isHead, hl] at this
+            · exact hx
+          obtain ⟨hI', hE', hA'⟩ := complete_final P env s1 j s0.stack v1 hI1 hst1' hX hl hrel
           exact ⟨hI', htail, hE01.trans hE', hA'⟩
       | some last =>
         rw [hl] at h
@@ -513,10 +534,13 @@ theorem loop_spec (hNF : NoFallback P) {read : Nat → St → Res Fetched}
           injection h with h; injection h with e1 h; injection h with e2 e3
           subst e1; subst e3
           obtain ⟨hI', hE', hA'⟩ := complete_cached P env s1 j s0.stack v1 (cycleFn P j last v1)
-            (hs1.filter (fun k => k != j)) hI1 hst1' hb hrel hb1 hnew
+            (hs1.filter (fun k => k != j)) hI1 hst1' (hbT hb) hrel hb1 hnew
           exact ⟨hI', htail, hE01.trans hE', hA'⟩
         · rename_i hb
-          have hno : ¬ HeadOn s0 := not_headOn_of_not_below hE01 hst1' hb
+          have hno : ¬ HeadOn s0 := by
+            rcases hbF hb with ho | hx
+            · exact (houter ho).1
+            · exact not_headOn_of_not_below hE01 hst1' (by rw [hx]; exact fun h => nomatch h)
           obtain ⟨hc0, hp0⟩ := hs0 hno
           split at h
           · rename_i hconv
@@ -537,7 +561,8 @@ theorem loop_spec (hNF : NoFallback P) {read : Nat → St → Res Fetched}
                   (by rw [hl]; rfl)
               have hE2 : Ext s0 (stIter s1 j (cycleFn P j last v1)) :=
                 ext_of_empty hE01.poisoned (fun c w hw => hE01.final c w hw) hc0 hp0
-              exact ih stamp' _ v hs s' hI2 hst1' hE2 h
+              exact ih stamp' true _ v hs s' hI2 hst1' hE2
+                (fun _ => ⟨hno, isHead_stIter s1 j _ (by rw [hl]; rfl)⟩) h
 
 theorem inv_push {s : St} {j : Nat} (hI : Inv P env s) (hj : j ∉ s.stack)
     (hf : s.final.lookup j = none) (hc : s.cache.lookup j = none) :
@@ -560,8 +585,9 @@ theorem execute_spec (hNF : NoFallback P) : ∀ d, ExecSpec P env (execute P env
   | succ d ih =>
     intro j s v hs s' hI hj hf hc h
     unfold execute at h
-    exact loop_spec P env hNF (fetch_spec P env hNF ih) j s hI.empty loopFuel _ _ v hs s'
-      (inv_push P env hI hj hf hc) rfl ⟨rfl, fun _ _ h => h, fun _ _ h => h, fun _ _ h => h⟩ h
+    exact loop_spec P env hNF (fetch_spec P env hNF ih) j s hI.empty loopFuel _ false _ v hs s'
+      (inv_push P env hI hj hf hc) rfl ⟨rfl, fun _ _ h => h, fun _ _ h => h, fun _ _ h => h⟩
+      (fun h => nomatch h) h
 
 /-- a database between requests: every memo is the least fixpoint, and the memoised set is
     closed under callees. -/
